@@ -2919,6 +2919,8 @@ func (c *BytecodeCompiler) compileForIn(
 	if !collectionLiteral {
 		c.emit(location.EndPos.Line, bytecode.POP)
 	}
+	// every iteration gets fresh variables, like in `while` and `fornum` loops
+	c.closeUpvaluesInCurrentScope(location.EndPos.Line)
 	if c.additionalAbortChecks {
 		c.emit(location.EndPos.Line, bytecode.CHECK_ABORT)
 	}
